@@ -287,6 +287,23 @@ func checkSectorRange(c SectorCase, rs RangeSpec, sector *[rhp2.SectorSize]byte,
 	if !verify(cloneH(want), root) {
 		return fail("complete", "RangeProofVerifier rejected the honest proof (chunk %+v)", rc)
 	}
+	// one verifier, several downloads (a renter retrying a range keeps its verifier): each cycle is judged on the data
+	// of that cycle alone - honest, then one flipped data bit, then honest again
+	if c.Seed>>11&3 == 0 && e-s <= 8192 {
+		re := newVerifier(s, e)
+		bad := append([]byte(nil), data...)
+		bad[(int(c.Seed>>13)%len(bad))] ^= 1 << (c.Seed >> 5 & 7)
+		for cycle, in := range [][]byte{data, bad, data} {
+			if _, err := re.ReadFrom(newChunkReader(in, rc)); err != nil {
+				return fail("verifier-reuse", "cycle %d: ReadFrom: %v", cycle, err)
+			}
+			got := re.Verify(cloneH(want), root)
+			if wantOK := cycle != 1; got != wantOK {
+				return fail("verifier-reuse", "one RangeProofVerifier used for three downloads (honest, one flipped bit, honest): cycle %d returned %v", cycle, got)
+			}
+		}
+		stats.G().Label("range-verifier-reused")
+	}
 	single := e == s+1
 	var leaf [64]byte
 	if single {
